@@ -34,10 +34,14 @@ def ensure_built():
             sys.exit(2)
 
 
+def hpath(job, f):
+    return f if os.path.isabs(f) else os.path.join(VERIF, "harness", job["harness_dir"], f)
+
+
 def harness_names(job):
     names = []
     for f in job["files"]:
-        txt = open(os.path.join(VERIF, "harness", job["harness_dir"], f)).read()
+        txt = open(hpath(job, f)).read()
         names += re.findall(r"^func (Verif\w+)\(\)", txt, re.M)
     return names
 
@@ -52,14 +56,14 @@ def prepare_overlay(job, tmp, replay=False):
     if replay:
         txt = open(os.path.join(common, "prelude_float.go.tmpl")).read().replace("PKGNAME", job["pkgname"])
         open(os.path.join(d, "zz_verif_float.go"), "w").write(txt)
-    for f in job["files"]:
-        shutil.copy(os.path.join(VERIF, "harness", job["harness_dir"], f), os.path.join(d, f))
+    for f in job["files"] + job.get("support", []):
+        shutil.copy(hpath(job, f), os.path.join(d, os.path.basename(f)))
     for f in job.get("extra_decl", []):
         if not replay:
-            shutil.copy(os.path.join(VERIF, "harness", job["harness_dir"], f), os.path.join(d, f))
+            shutil.copy(hpath(job, f), os.path.join(d, os.path.basename(f)))
     for f in job.get("extra_replay", []):
         if replay:
-            shutil.copy(os.path.join(VERIF, "harness", job["harness_dir"], f), os.path.join(d, f))
+            shutil.copy(hpath(job, f), os.path.join(d, os.path.basename(f)))
     return d
 
 
@@ -235,7 +239,7 @@ def main():
         harness_res = []
         for res in results:
             if res.get("error"):
-                infra.append(f"{res['_job']}/{res['_harness']}: {res['error']}")
+                infra.append(f"{res['_job']}/{res['_harness']}: {res['error']} :: {res.get('_stderr','')[-1200:]}")
                 continue
             for h in res["harnesses"]:
                 h["_job"] = res["_job"]
@@ -247,7 +251,7 @@ def main():
                 infra.append(f"{h['harness']}: incomplete: {h.get('incomplete_reason')} {json.dumps(h.get('unsupported') or {})[:600]} {(h.get('engine_bugs') or [''])[0][:1500]}")
             if h["paths_ok"] == 0 and not h["violations"]:
                 infra.append(f"{h['harness']}: vacuous (no completed path)")
-            if not h["asserts"]:
+            if not h["asserts"] and not h["violations"]:
                 infra.append(f"{h['harness']}: vacuous (no assertion reached)")
         for job in jobs:
             for hn, ids in job.get("expect_reach", {}).items():
